@@ -13,58 +13,10 @@ use walkit::frame::{self, Rec};
 use walkit::host::{
     apply, callbacks_here, fingerprint, open_host, ops_word, wal_counts, Known, Op, OpResult, Sub,
 };
+pub use walkit::hostrun::{learn_ids, run_uninterrupted, Run};
 use walkit::{fresh_dir, DirImage, LEDGER_FILE, SEGMENT_REL};
 use warp_core::causal_wal::{recover_filesystem_store, RecoveryAccessMode};
 use warp_core::{Hash, IntentOutcome, TrustedRuntimeHost};
-
-/// Uninterrupted run of one workload on the real host.
-#[derive(Clone, Debug)]
-pub struct Run {
-    pub ops: Vec<Op>,
-    pub seg: Vec<u8>,
-    /// `ends[i]` = segment length after i ops.
-    pub ends: Vec<usize>,
-    /// `ledgers[i]` = ledger bytes after i ops (0 = after `enable_runtime_wal` on the empty dir).
-    pub ledgers: Vec<Vec<u8>>,
-    /// `fps[i]` = fingerprint after i ops.
-    pub fps: Vec<String>,
-    pub results: Vec<OpResult>,
-    pub synced: Vec<Option<u64>>,
-    pub records: Vec<Rec>,
-}
-
-impl Run {
-    pub fn word(&self) -> String {
-        ops_word(&self.ops)
-    }
-    /// Number of complete commit markers inside the first `l` bytes.
-    pub fn k_at(&self, l: usize) -> usize {
-        frame::commits_within(&self.records, l)
-    }
-    /// Index i such that `fps[i]` is the state after exactly k committed transactions (the state
-    /// after the op that committed transaction k; later non-appending ops must not change it).
-    pub fn fp_index_for_k(&self, k: usize) -> usize {
-        if k == 0 {
-            return 0;
-        }
-        let commit_ends: Vec<usize> = self.records.iter().filter(|r| r.is_commit()).map(|r| r.end).collect();
-        let target = commit_ends[k - 1];
-        (1..self.ends.len()).find(|i| self.ends[*i] >= target).unwrap_or(self.ends.len() - 1)
-    }
-}
-
-/// Submission ids are a function of the envelope; learn them once.
-pub fn learn_ids(scratch: &Path) -> Result<Vec<(Sub, Hash)>, String> {
-    let dir = fresh_dir(scratch, "ids");
-    let mut host = open_host(&dir).map_err(|e| format!("{e:?}"))?;
-    let mut known = Known::default();
-    for s in [Sub::A, Sub::B] {
-        apply(&mut host, &mut known, Op::Submit(s)).map_err(|e| format!("{e:?}"))?;
-    }
-    drop(host);
-    let _ = std::fs::remove_dir_all(&dir);
-    Ok(known.ids.into_iter().collect())
-}
 
 /// Valid op sequences: submit X only once, retry A only after A was submitted, tick only when an
 /// acknowledged submission is still undecided (an idle scheduler pass appends nothing).
@@ -106,43 +58,6 @@ pub fn valid_words(depth: usize) -> Vec<Vec<Op>> {
 
 fn read_or_empty(p: &Path) -> Vec<u8> {
     std::fs::read(p).unwrap_or_default()
-}
-
-/// Run a workload without interruption and record everything.
-pub fn run_uninterrupted(scratch: &Path, ops: &[Op], ids: &[(Sub, Hash)]) -> Result<Run, String> {
-    let dir = fresh_dir(scratch, "hostrun");
-    let seg_path = dir.join(SEGMENT_REL);
-    let mut host = open_host(&dir).map_err(|e| format!("open: {e:?}"))?;
-    let mut known = Known::default();
-    let mut run = Run {
-        ops: ops.to_vec(),
-        seg: Vec::new(),
-        ends: vec![read_or_empty(&seg_path).len()],
-        ledgers: vec![read_or_empty(&dir.join(LEDGER_FILE))],
-        fps: vec![fingerprint(&mut host, ids)],
-        results: Vec::new(),
-        synced: Vec::new(),
-        records: Vec::new(),
-    };
-    let seg_canon = seg_path.canonicalize().unwrap_or(seg_path.clone());
-    for op in ops {
-        let (res, ev) = walkit::syncspy::record(|| apply(&mut host, &mut known, *op));
-        let res = res.map_err(|e| format!("op {} failed in uninterrupted run: {e:?}", op.letter()))?;
-        run.results.push(res);
-        run.synced.push(walkit::syncspy::synced_len(&ev, &seg_canon).or_else(|| walkit::syncspy::synced_len(&ev, &seg_path)));
-        run.ends.push(read_or_empty(&seg_path).len());
-        run.ledgers.push(read_or_empty(&dir.join(LEDGER_FILE)));
-        run.fps.push(fingerprint(&mut host, ids));
-    }
-    drop(host);
-    run.seg = read_or_empty(&seg_path);
-    let (recs, stop) = frame::parse(&run.seg);
-    if stop != run.seg.len() {
-        return Err("framing parser did not consume the host segment".into());
-    }
-    run.records = recs;
-    let _ = std::fs::remove_dir_all(&dir);
-    Ok(run)
 }
 
 #[derive(Clone, Copy, Debug)]
@@ -347,6 +262,27 @@ fn offsets(run: &Run, lo: usize, hi: usize, every_byte: bool) -> Vec<usize> {
     set.into_iter().collect()
 }
 
+/// Observation recorded in the evidence (not an oracle): a scheduler pass with no admitted work
+/// advances the in-memory global tick but appends nothing, so it is not recovered.
+fn idle_tick_observation(scratch: &Path, ids: &[(Sub, Hash)]) -> Result<Value, String> {
+    let dir = fresh_dir(scratch, "idle");
+    let mut host = open_host(&dir).map_err(|e| format!("{e:?}"))?;
+    let mut known = Known::default();
+    apply(&mut host, &mut known, Op::Submit(Sub::A)).map_err(|e| format!("{e:?}"))?;
+    apply(&mut host, &mut known, Op::Tick).map_err(|e| format!("{e:?}"))?;
+    let before = host.runtime().global_tick().as_u64();
+    let steps = host.tick_once().map_err(|e| format!("{e:?}"))?.len();
+    let live = host.runtime().global_tick().as_u64();
+    drop(host);
+    let mut h2 = open_host(&dir).map_err(|e| format!("{e:?}"))?;
+    let recovered = h2.runtime().global_tick().as_u64();
+    let _ = fingerprint(&mut h2, ids);
+    let _ = std::fs::remove_dir_all(&dir);
+    Ok(json!({"workload": "A.t.<idle tick_once>", "idle_pass_steps": steps, "global_tick_before_idle_pass": before,
+        "global_tick_live_after_idle_pass": live, "global_tick_after_recovery": recovered,
+        "note": "idle passes are excluded from the op alphabet: they publish no outcome and append no transaction"}))
+}
+
 pub struct HostData {
     pub runs: Vec<Run>,
     pub ids: Vec<(Sub, Hash)>,
@@ -372,6 +308,10 @@ pub fn run(r: &Report) -> Option<HostData> {
         }
     };
     r.counter("host.workloads", runs.len() as u64);
+    match idle_tick_observation(&scratch, &ids) {
+        Ok(v) => r.note("observation_idle_scheduler_pass", v),
+        Err(e) => r.note("observation_idle_scheduler_pass", json!({"error": e})),
+    }
     r.counter("host.segment_bytes_max", runs.iter().map(|x| x.seg.len() as u64).max().unwrap_or(0));
     let index: BTreeMap<String, usize> = runs.iter().enumerate().map(|(i, x)| (x.word(), i)).collect();
 
